@@ -54,7 +54,9 @@ contract(f'{MF}::Ammo.calc_powder_sens', props=('C17',),
 POS = Real(lo=0, lo_open=True)
 SMALL = Real(lo=0, lo_open=True, hi=0.01)
 SIGHT = Obj(M.Sight, focal_plane=Enum('FFP', 'SFP', 'LWIR'),
-            scale_factor=QDist(Unit.Yard, value=POS),
+            # the calibration distance may be displayed in any unit (set under another PreferredUnits.distance, or
+            # assigned by the caller): the click law is about magnitudes
+            scale_factor=Q(U.Distance, Unit.Yard, Unit.Meter, value=POS),
             h_click_size=Q(U.Angular, Unit.Mil, Unit.InchesPer100Yd, value=SMALL),
             v_click_size=Q(U.Angular, Unit.MOA, Unit.CmPer100m, value=SMALL))
 
@@ -112,4 +114,19 @@ contract(f'{MF}::Sight.__init__', props=('C19',),
          },
          ensures=[('stores-focal-plane', 'self.focal_plane == focal_plane'),
                   ('click-sizes-positive', 'raw(self.h_click_size) > 0 and raw(self.v_click_size) > 0')],
+         modifies=['self.*'] + DISPLAY_ONLY)
+
+# whatever spellings of the focal plane a version of the constructor accepts: a sight that exists has a known focal plane,
+# and a second-focal-plane sight has a calibration distance (the statement's rejection clause as a state invariant)
+contract(f'{MF}::Sight.__init__', tag='any-spelling', props=('C19',),
+         params=dict(self=Obj(M.Sight),
+                     focal_plane=Enum('SFP', 'sfp', 'Sfp', 'ffp', 'lwir', 'XFP', 'xfp', ''),
+                     scale_factor=OneOf(Const(None), Const(0), QDist(Unit.Meter, value=POS)),
+                     h_click_size=QAng(Unit.Mil, value=Real(lo=0, lo_open=True, hi=6)),
+                     v_click_size=QAng(Unit.MOA, value=Real(lo=0, lo_open=True, hi=6))),
+         raises={'ValueError': None},
+         ensures=[('an-existing-sight-has-a-known-focal-plane', 'self.focal_plane in ("FFP", "SFP", "LWIR")'),
+                  ('an-existing-second-focal-plane-sight-has-a-calibration-distance',
+                   'implies(self.focal_plane == "SFP", is_quantity(scale_factor) and raw(self.scale_factor) == raw(scale_factor) '
+                   'and raw(self.scale_factor) > 0)')],
          modifies=['self.*'] + DISPLAY_ONLY)
